@@ -325,6 +325,15 @@ func c13Run(run *ev.Run) {
 	if int(evals) != len(cases) {
 		run.Cap(fmt.Sprintf("%d of %d cases", evals, len(cases)))
 	}
+	// server level: two filters whose discovered providers coincide in all but a port / a discovery selector - the
+	// login Location of a filter is ITS provider's authorization endpoint, its own query retained
+	pairs := srvRunPairs(run, func(o srvPairObs, replay any) {
+		if !strings.HasPrefix(o.LoginLoc, o.WantAuthz+"?") && !strings.HasPrefix(o.LoginLoc, o.WantAuthz+"&") {
+			run.Violation("C13 location-is-not-the-authorization-endpoint server-pair", fmt.Sprintf("%s, filter %s used first: the login redirect of filter %s goes to %q, its provider's authorization endpoint is %q",
+				o.Pair, o.First, o.Second.Name, o.LoginLoc, o.WantAuthz), replay)
+		}
+	})
+	evals += pairs
 	// histories: sessions superseded by requests for other URLs (pending / stale / attacker-chosen cookies)
 	var hs seqx.Stats
 	for _, st := range stores {
